@@ -42,8 +42,21 @@ def parse_obs(line):
     """-> dict or None for panic/skipped/bad-op/ok(limits)."""
     if line is None or line.startswith("panic") or line in ("skipped", "bad-op", "ok", "case") or " ; " not in line:
         return None
-    res, calls, ev, st, tail = line.split(" ; ")
-    o = {"res": res, "calls": [], "events": [], "st": {}, "raw": line}
+    parts = line.split(" ; ")
+    if len(parts) not in (5, 6):
+        return None
+    res, calls, ev, st, tail = parts[:5]
+    o = {"res": res, "calls": [], "events": [], "st": {}, "raw": line, "susp": "-", "cmd": 0, "ch": None}
+    if len(parts) == 6:
+        # protocol layer: susp=y|- cmd=<queued commands> ch=<len0>,<len1>
+        for kv in parts[5].split():
+            k, v = kv.split("=")
+            if k == "susp":
+                o["susp"] = v
+            elif k == "cmd":
+                o["cmd"] = int(v)
+            elif k == "ch":
+                o["ch"] = [int(x) for x in v.split(",")]
     for c in calls[len("calls="):].split():
         if c == "-":
             continue
@@ -96,7 +109,7 @@ class Ghost:
 
     # -- contract (Model/Manager/Dial.lean `allowed`)
     def allowed(self, t):
-        if t[0] in ("addknown", "dial", "dialaddr", "limits"):
+        if t[0] in ("addknown", "dial", "dialaddr", "limits", "protocols", "pdial", "pdialaddr", "pfill", "pdrain"):
             return True
         if t[0] == "accepted":
             return t[2] == "ok" and self.owed.get(t[1], {}).get("phase") == "accept"
@@ -142,17 +155,20 @@ class Ghost:
                 if (ev["k"] == "est" and ev["conn"] == a["carrier"]) or \
                         (ev["k"] in ("dialfail", "openfail") and ev["conn"] == a["conn"]):
                     a["reports"].append((step, ev["k"]))
-        if t[0] in ("dial", "dialaddr"):
+        if t[0] in ("dial", "dialaddr", "pdial", "pdialaddr", "pdrain", "pfill"):
+            # attempts started by the call itself or by queued commands the manager got to in this step
             for kind, c, addrs in calls:
                 if kind in ("open", "dial") and c in self.used:
                     self.clash = True
                 if kind == "open":
-                    self.owed[c] = {"phase": "open", "peer": int(t[1]), "addrs": addrs}
-                    self.ledger.append({"peer": int(t[1]), "conn": c, "carrier": c, "reports": [], "step": step})
+                    lp = int(t[1]) if t[0] == "dial" else (last_peer(addrs[0]) if addrs else None)
+                    lp = lp if lp is not None else 0
+                    self.owed[c] = {"phase": "open", "peer": lp, "addrs": addrs}
+                    self.ledger.append({"peer": lp, "conn": c, "carrier": c, "reports": [], "step": step})
                     self.used.add(c)
                 elif kind == "dial":
                     tp = tcp_peer(addrs[0]) if addrs else None
-                    lp = last_peer(t[1])
+                    lp = last_peer(t[1]) if t[0] == "dialaddr" else (last_peer(addrs[0]) if addrs else None)
                     self.owed[c] = {"phase": "dial", "peer": tp if tp is not None else 0, "addrs": addrs}
                     self.ledger.append({"peer": lp if lp is not None else 0, "conn": c, "carrier": c, "reports": [], "step": step})
                     self.used.add(c)
@@ -234,9 +250,12 @@ class Session:
             self.p.kill()
 
 
-def gen_case(rng, sess, n_ops, npeers=3, chaos=0.0, limits=None):
+def gen_case(rng, sess, n_ops, npeers=3, chaos=0.0, limits=None, protocols=None):
     """One history. Events are chosen among those a contract-abiding environment can produce in the
-    current (observed) situation; with probability `chaos` per step an arbitrary event instead."""
+    current (observed) situation; with probability `chaos` per step an arbitrary event instead.
+    `protocols=(n, cap)`: n protocols with event channels of capacity cap are installed; they dial
+    through the manager handle, and their channels are filled / drained around the moments the
+    outcomes of dials are delivered."""
     lim = limits or rng.choice(LIMIT_CONFIGS)
     ops = [f"limits {lim[0]} {lim[1]}"]
     sess.send("case")
@@ -244,6 +263,12 @@ def gen_case(rng, sess, n_ops, npeers=3, chaos=0.0, limits=None):
     g = Ghost(*lim)
     nlabel = [0]
     peers = list(range(1, npeers + 1))
+    np_ = 0
+    if protocols:
+        np_ = protocols[0]
+        ops.append(f"protocols {protocols[0]} cap={protocols[1]}")
+        sess.send(ops[-1])
+    last = {"susp": "-", "ch": [0] * np_}
 
     def new_label():
         nlabel[0] += 1
@@ -256,7 +281,7 @@ def gen_case(rng, sess, n_ops, npeers=3, chaos=0.0, limits=None):
         cands = []
         p = rng.choice(peers)
         # API calls
-        cands.append((3, lambda p=p: f"addknown {p} " + ",".join(rng.sample([addr(p, 0), addr(p, 1), addr(p, 2)], rng.choice([1, 1, 2])))))
+        cands.append((6 if protocols else 3, lambda p=p: f"addknown {p} " + ",".join(rng.sample([addr(p, 0), addr(p, 1), addr(p, 2)], rng.choice([1, 1, 2])))))
         cands.append((4, lambda p=p: f"dial {p} as={new_label()}"))
         cands.append((4, lambda p=p: f"dialaddr {addr(p, rng.randrange(3))} as={new_label()}"))
         # inbound sockets
@@ -283,7 +308,18 @@ def gen_case(rng, sess, n_ops, npeers=3, chaos=0.0, limits=None):
             if c not in g.owed:
                 for q, _ in sorted(s):
                     cands.append((3, lambda c=c, q=q: f"ev closed {q} {c}"))
-        if rng.random() < chaos:
+        if np_:
+            full = [j for j in range(np_) if last["ch"][j] >= protocols[1]]
+            outcome_near = any(o["phase"] in ("open", "dial") for o in g.owed.values())
+            cands.append((6, lambda p=p: f"pdial {rng.randrange(np_)} {p}"))
+            cands.append((2, lambda p=p: f"pdialaddr {rng.randrange(np_)} {addr(p, rng.randrange(3))}"))
+            cands.append((5 if outcome_near else 1, lambda: f"pfill {rng.randrange(np_)}"))
+            cands.append((3 if full else 1, lambda: f"pdrain {rng.choice(full) if full and rng.random() < 0.8 else rng.randrange(np_)}"))
+            if last["susp"] == "y":
+                # the manager is blocked on a full channel: mostly protocol activity
+                cands = [(w, f) for w, f in cands[-4:]] + [(1, f) for _, f in cands[:-4][:3]]
+                cands.append((10, lambda: f"pdrain {rng.choice(full) if full else rng.randrange(np_)}"))
+        if rng.random() < chaos and last["susp"] != "y":
             q = rng.choice(peers)
             a = addr(q, rng.randrange(3))
             cands = [(1, lambda: f"ev established {q} {any_label()} {a} {rng.choice(['dialer', 'listener'])}"),
@@ -302,10 +338,29 @@ def gen_case(rng, sess, n_ops, npeers=3, chaos=0.0, limits=None):
         op = f()
         out = sess.send(op)
         ops.append(op)
+        if out == "busy":
+            continue
         obs = parse_obs(out)
         g.update(len(ops) - 1, op, obs)
         if obs is None:
-            break
+            return ops                 # panic: the rest of the case would be skipped
+        if np_ and obs["ch"] is not None:
+            last = obs
+    if np_ and rng.random() < 0.9:
+        # the protocols catch up: drain until the manager is no longer blocked and every channel is empty
+        for _ in range(3 * np_ + 2):
+            todo = [j for j in range(np_) if last["ch"][j] > 0]
+            if not todo:
+                break
+            for j in todo:
+                op = f"pdrain {j}"
+                out = sess.send(op)
+                ops.append(op)
+                obs = parse_obs(out)
+                g.update(len(ops) - 1, op, obs)
+                if obs is None or obs["ch"] is None:
+                    return ops
+                last = obs
     return ops
 
 
@@ -373,7 +428,11 @@ def gen_addr_case(rng, sess, n_ops):
     return ops
 
 
-def gen_cases(rng, tier, share_addr=0.15):
+# limit configurations under which queued dials of the protocols fail
+PROTO_LIMITS = [("none", "0"), ("0", "0"), ("none", "1"), ("1", "1"), ("2", "1")]
+
+
+def gen_cases(rng, tier, share_addr=0.15, share_proto=0.0):
     n = {"quick": 1000, "thorough": 50000, "search": 4000}[tier]
     sess = Session()
     try:
@@ -382,7 +441,13 @@ def gen_cases(rng, tier, share_addr=0.15):
                 yield gen_addr_case(rng, sess, rng.choice([3, 6, 10, 16]))
             else:
                 chaos = rng.choice([0, 0, 0, 0, 0, 0.05, 0.15])
-                yield gen_case(rng, sess, rng.choice([6, 10, 16, 25, 25]), npeers=rng.choice([2, 3]), chaos=chaos)
+                protocols = None
+                if rng.random() < share_proto:
+                    protocols = (rng.choice([1, 1, 2, 2, 3]), rng.choice([1, 1, 2, 3]))
+                    chaos = rng.choice([0, 0, 0, 0.05])
+                limits = rng.choice(PROTO_LIMITS) if protocols and rng.random() < 0.5 else None
+                yield gen_case(rng, sess, rng.choice([6, 10, 16, 25, 25]), npeers=rng.choice([2, 3]), chaos=chaos,
+                               limits=limits, protocols=protocols)
     finally:
         sess.close()
 
@@ -404,8 +469,17 @@ def model_lines(case, impl_out):
     equal scores) from the implementation's `open` call and validates it."""
     res = []
     for i, op in enumerate(case):
-        if op.startswith("dial ") and impl_out and i < len(impl_out) and impl_out[i] and "calls=open:" in impl_out[i]:
-            res.append(op + " -> " + impl_out[i])
+        o = impl_out[i] if impl_out and i < len(impl_out) and impl_out[i] else ""
+        if " -> " in op:
+            res.append(op)
+        elif op.startswith("dial ") and "calls=open:" in o:
+            res.append(op + " -> " + o)
+        elif op.startswith("protocols ") and o.startswith("ok order="):
+            # the order in which the manager walks over its protocols is the hash map's
+            res.append(op + " -> " + o)
+        elif op.split(" ", 1)[0] in ("pdial", "pdialaddr", "pfill", "pdrain") and "open:" in o:
+            # queued DialPeer commands the manager got to in this step: the address store's answers
+            res.append(op + " -> " + o)
         else:
             res.append(op)
     return res
@@ -418,8 +492,17 @@ def stats(case, out, acc):
         bump(acc, "op:" + k)
         if o.startswith("panic"):
             bump(acc, "panic")
+        if o == "busy":
+            bump(acc, "busy:" + k)
         ob = parse_obs(o)
         if ob:
+            if ob["susp"] == "y":
+                bump(acc, "suspended-after:" + k)
+            if t[0] in ("pdial", "pdialaddr"):
+                bump(acc, f"{t[0]}:{ob['res']}" + ("+attempt" if ob["calls"] else ""))
+            if t[0] == "pdrain" and ob["res"] != "got=-":
+                for e in ob["res"][4:].split(","):
+                    bump(acc, "protocol-got:" + e.split(":")[0])
             if t[0] in ("dial", "dialaddr"):
                 bump(acc, f"{t[0]}:{ob['res']}" + ("+attempt" if ob["calls"] else ""))
             for c in ob["calls"]:
